@@ -330,6 +330,32 @@ def _execute(case):
             if op in ('copy', 'first_handle'):
                 real.append(None)
                 model.append(None)
+            if r.type == 'seg' and m.kind == 'seg' and op in ('exists', 'count', 'select', 'first') and o.get('path') \
+                    and not str(o.get('shape', '')).startswith(('bad', 'malformed', 'zero', 'seg-only', 'seg-qual', 'empty')):
+                # queries from a segment handle: only '../' can lead anywhere; the four must agree with one another and with the model
+                p = o['path'] if o['path'].startswith('../') else '../' + o['path']
+                evals += 1
+                log.ev('segquery', op, h, p)
+                try:
+                    try:
+                        want = len(M.select(m, p))
+                    except (M.BadPath, RecursionError):
+                        want = None
+                    try:
+                        ex, ct, fi, se = r.exists(p), r.count(p), r.first(p), len(list(r.select(p)))
+                        if not (bool(ex) == (ct > 0) == (fi is not None) == (se > 0)) or ct != se:
+                            out.violate('api', 'query-disagreement|seg-handle', 'op %d on segment handle %d, path %r: exists=%r count=%r first=%r len(select)=%r' % (
+                                n, h, p, ex, ct, fi is not None, se))
+                        elif want is not None and ct != want:
+                            out.violate('api', 'count|seg-handle', 'op %d on segment handle %d, path %r: count %r, model %r' % (n, h, p, ct, want))
+                    except X12PathError:
+                        pass
+                except Exception as e:
+                    out.violate('exception', 'exception|%s|seg-handle|%s' % (op, observe.exc_sig(e)), 'op %d %s(%r) on segment handle %d raised %s: %s' % (
+                        n, op, p, h, observe.exc_sig(e), e))
+                out.cover.add('%s|seg-handle|query' % op)
+                if out.violations:
+                    break
             if r.type == 'seg' and m.kind == 'seg' and op in ('get_value', 'set_value') and 'segpath' in o:
                 evals += 1
                 msg = seg_handle_op(r, m, o, n, h, log, out)
